@@ -356,7 +356,7 @@ func (s *session) SetID(newID string) {
 	s.socket.SetID(newID)
 	hub := s.peer.sessHub
 	hub.set(s)
-	hub.delete(oldID)
+	hub.deleteSession(oldID, s)
 	Tracef("session changes id: %s -> %s", oldID, newID)
 }
 
@@ -806,7 +806,7 @@ func (s *session) closeLocked() error {
 	if !s.tryChangeStatus(statusActiveClosing, statusOk, statusPreparing) {
 		return nil
 	} // readDisconnected is being called
-	s.peer.sessHub.delete(s.ID())
+	s.peer.sessHub.deleteSession(s.ID(), s)
 	s.notifyClosed()
 	s.graceCtxWait()
 	s.graceCallCmdWaitGroup.Wait()
@@ -826,7 +826,7 @@ func (s *session) readDisconnected(oldConn net.Conn, err error) {
 		s.changeStatus(statusPassiveClosing)
 	}
 
-	s.peer.sessHub.delete(s.ID())
+	s.peer.sessHub.deleteSession(s.ID(), s)
 
 	var reason string
 	if err != nil && err != socket.ErrProactivelyCloseSocket {
@@ -981,6 +981,7 @@ type SessionHub struct {
 	// key: session id (ip, name and so on)
 	// value: *session
 	sessions goutil.Map
+	mu       sync.Mutex // serializes taking over and giving up an id
 }
 
 // newSessionHub creates a new sessions hub.
@@ -993,11 +994,15 @@ func newSessionHub() *SessionHub {
 
 // set sets a *session.
 func (sh *SessionHub) set(sess *session) {
+	sh.mu.Lock()
 	_sess, loaded := sh.sessions.LoadOrStore(sess.ID(), sess)
+	if loaded {
+		sh.sessions.Store(sess.ID(), sess)
+	}
+	sh.mu.Unlock()
 	if !loaded {
 		return
 	}
-	sh.sessions.Store(sess.ID(), sess)
 	if oldSess := _sess.(*session); sess != oldSess {
 		oldSess.Close()
 	}
@@ -1040,6 +1045,17 @@ func (sh *SessionHub) len() int {
 // delete deletes the *session for a id.
 func (sh *SessionHub) delete(id string) {
 	sh.sessions.Delete(id)
+}
+
+// deleteSession deletes the entry for id only if it still belongs to sess:
+// when a newer session has taken over the id, the entry is the newer
+// session's and must stay.
+func (sh *SessionHub) deleteSession(id string, sess *session) {
+	sh.mu.Lock()
+	if cur, ok := sh.sessions.Load(id); ok && cur.(*session) == sess {
+		sh.sessions.Delete(id)
+	}
+	sh.mu.Unlock()
 }
 
 const (
